@@ -167,9 +167,36 @@ func buildGraph(rc resolve.Client, root resolve.VersionKey, s *state) (*resolve.
 		rootPackage: g.AddNode(root),
 	}
 
+	// Find the pinned versions that can reach the root, by propagating from
+	// the root until nothing changes. (A depth-first search from each version
+	// that remembers "not connected" goes wrong on cycles: a version met while
+	// its cycle is still being explored is recorded as unconnected, although
+	// another member of the cycle turns out to be connected afterwards.)
+	for changed := true; changed; {
+		changed = false
+		s.mapping.Iterate(func(p resolve.PackageKey, v resolve.VersionKey) {
+			if connected[v] {
+				return
+			}
+			crit, ok := s.criteria.Get(p)
+			if !ok {
+				return
+			}
+			for _, parent := range crit.informationParents {
+				// Only the root and pinned versions are ever connected, so a
+				// requirement left by a replaced pin does not count.
+				if connected[parent] {
+					connected[v] = true
+					changed = true
+					return
+				}
+			}
+		})
+	}
+
 	// Add all the nodes that can reach the root.
 	s.mapping.Iterate(func(p resolve.PackageKey, v resolve.VersionKey) {
-		if !hasRouteToRoot(rc, v, connected, s) {
+		if !connected[v] {
 			return
 		}
 		if _, ok := ids[p]; !ok {
@@ -216,46 +243,6 @@ func buildGraph(rc resolve.Client, root resolve.VersionKey, s *state) (*resolve.
 	}
 
 	return g, nil
-}
-
-func hasRouteToRoot(rc resolve.Client, v resolve.VersionKey, connected map[resolve.VersionKey]bool, s *state) bool {
-	if c, ok := connected[v]; c {
-		return true
-	} else if ok {
-		// It's been visited but not yet found to be connected, either
-		// because it isn't, or we've just recursed back to the start of
-		// a loop. In any case there's no additional paths to the route
-		// through here.
-		return false
-	}
-	// Insert a false for now, to mark this version as visited.
-	connected[v] = false
-
-	p := v.PackageKey
-	crit, ok := s.criteria.Get(p)
-	if !ok {
-		// This should never happen, but if it does the version is
-		// certainly not connected to the root.
-		return false
-	}
-	for _, parent := range crit.informationParents {
-		if connected[parent] {
-			connected[v] = true
-			return true
-		}
-		parentPackage := parent.PackageKey
-		if pv, ok := s.mapping.Get(parentPackage); !ok || pv != parent {
-			// The parent was never pinned or a different version
-			// was pinned. Either way, there is definitely no path
-			// to the root through here.
-			continue
-		}
-		if hasRouteToRoot(rc, parent, connected, s) {
-			connected[v] = true
-			return true
-		}
-	}
-	return false
 }
 
 // provider is a wrapper around the resolve client, giving it an API that
